@@ -368,7 +368,7 @@ Section Solver.
       match all_variants (lp_space p) (cur st2) with
       | None => (OPyError 5, st2)
       | Some vs =>
-          let '(_, bseq, st3) := opt_exhaustive_loop p (sum_best (lp_objectives p) false) vs sc (cur st2) st2 in
+          let '(_, bseq, st3) := opt_exhaustive_loop p (sum_best (lp_objectives p) true) vs sc (cur st2) st2 in
           (ODone, assign st3 bseq)
       end.
 
